@@ -135,3 +135,56 @@ def Item.fillReplace (c : Cfg L K) (t : Tags L K) : Item L → Item L
 
 end
 end KojenVerif
+
+namespace KojenVerif
+section
+variable {L K : Type} [DecidableEq K]
+
+/-- user edit: the body under every tag `k` becomes `B k` -/
+def Item.setBody (c : Cfg L K) (B : K → List L) : Item L → Item L
+  | .text l => .text l
+  | .block o cl _ => .block o cl (B (c.key o))
+
+/-- apply a per-line function (the output stage's TAB filter) to every line -/
+def Item.mapLines (f : L → L) : Item L → Item L
+  | .text l => .text (f l)
+  | .block o cl b => .block (f o) (f cl) (b.map f)
+
+def blockKeys (c : Cfg L K) (D : List (Item L)) : List K := Tags.keys (blocksOf c D)
+
+/-- A freshly expanded file (before it is written) that can be regenerated over:
+    empty tag pairs whose two lines clean to the same key, stable under the output
+    filter `norm`; ordinary text lines are no tag lines and do not clean to a tag key. -/
+def Item.freshOK (c : Cfg L K) (norm : L → L) (keys : List K) : Item L → Prop
+  | .text l => c.isTag l = false ∧ c.key l ∉ keys
+  | .block o cl b => b = [] ∧ c.isTag o = true ∧ c.isTag cl = true ∧ c.key cl = c.key o
+      ∧ c.key (norm o) = c.key o ∧ c.key (norm cl) = c.key o
+
+structure FreshDoc (c : Cfg L K) (norm : L → L) (F : List (Item L)) : Prop where
+  items : ∀ it ∈ F, it.freshOK c norm (blockKeys c F)
+  nodup : (blockKeys c F).Nodup
+
+/-- what the output filter must satisfy (proved for TAB expansion in `Lemmas/Str`) -/
+structure NormOK (c : Cfg L K) (norm : L → L) : Prop where
+  tag : ∀ l, c.isTag (norm l) = c.isTag l
+  idem : ∀ l, norm (norm l) = norm l
+
+/-- user text: no line contains the tag prefix -/
+def UserOK (c : Cfg L K) (B : K → List L) : Prop := ∀ k, ∀ x ∈ B k, c.isTag x = false
+
+/-- what becomes of one item: written through the output filter, then its body edited -/
+def Item.edit (c : Cfg L K) (norm : L → L) (B : K → List L) : Item L → Item L
+  | .text l => .text (norm l)
+  | .block o cl _ => .block (norm o) (norm cl) (B (c.key (norm o)))
+
+/-- the file on disk after generating `F` and editing the bodies to `B` -/
+def onDisk (c : Cfg L K) (norm : L → L) (B : K → List L) (F : List (Item L)) : List (Item L) :=
+  F.map (Item.edit c norm B)
+
+/-- one regeneration of a single file: collect from disk, emplace into the fresh
+    expansion, write through the output filter -/
+def regenLines (c : Cfg L K) (norm : L → L) (fresh disk : List L) : List L :=
+  (emplace c (collect c disk) fresh).map norm
+
+end
+end KojenVerif
